@@ -127,6 +127,7 @@ type Variant struct {
 	PerMessage bool
 	Unsafe     bool
 	Opt        string // one more boolean option of the generator switched on (<Opt>=true), see BoolOptions
+	Rep        string // how the repeatable option `specialname` is passed: the label of a RepeatedShape ("" = the single token specialname=Size)
 }
 
 func (v Variant) Name() string {
@@ -149,7 +150,76 @@ func (v Variant) Name() string {
 			}
 		}
 	}
+	if v.Rep != "" {
+		n += "r" + v.Rep
+	}
 	return n
+}
+
+// GogoSpecialNames: the Go field names protoc-gen-gogo (generator.go: methodNames, plus "Size" without the protosizer
+// extension) gives a trailing underscore and protogen (the library the generator under test gets its Go names from)
+// does not — the names `specialname=` exists for, in ascending order.
+var GogoSpecialNames = []string{"Equal", "GoString", "MarshalTo", "ProtoSize", "Size", "VerboseEqual"}
+
+// RepeatedShape: one way of handing SEVERAL values to a repeatable option (a flag.Value registered with flags.Var,
+// whose Set is called once per `name=value` token of the parameter string — protogen splits the parameter at commas,
+// so a list of values is always a list of tokens).
+type RepeatedShape struct {
+	Label  string // lower-case letters and digits (part of the variant's name)
+	Values []string
+}
+
+// RepeatedShapes: two, three and all values in ascending order, in descending order, in an order that is neither,
+// and with one value given twice (first and last, next to each other). Every shape contains "Size", the value of the
+// fixed gogo variant, so that every gogo schema of the corpus applies to every shape.
+var RepeatedShapes = []RepeatedShape{
+	{"asc2", []string{"ProtoSize", "Size"}}, {"desc2", []string{"Size", "ProtoSize"}}, {"dup2", []string{"Size", "Size"}},
+	{"asc3", []string{"Equal", "ProtoSize", "Size"}}, {"desc3", []string{"Size", "ProtoSize", "Equal"}}, {"rot3", []string{"ProtoSize", "Size", "Equal"}},
+	{"dup3", []string{"Size", "Equal", "Size"}},
+	{"asc6", GogoSpecialNames}, {"desc6", reversed(GogoSpecialNames)},
+}
+
+func reversed(xs []string) []string {
+	out := make([]string, len(xs))
+	for i, x := range xs {
+		out[len(xs)-1-i] = x
+	}
+	return out
+}
+
+// SpecialNames: the values of the `specialname` option the variant passes (gogo variants only), in the order given.
+func (v Variant) SpecialNames() []string {
+	if v.Runtime != "gogo" || !v.FM {
+		return nil
+	}
+	for _, sh := range RepeatedShapes {
+		if sh.Label == v.Rep {
+			return sh.Values
+		}
+	}
+	return []string{"Size"}
+}
+
+// Takes reports whether the schema is meaningful for the variant: for its runtime, and — a schema whose Go field
+// names need a trailing underscore with the Gogo runtime (Schema.Special) — only when the variant passes all of
+// these names to the generator.
+func (v Variant) Takes(s *Schema) bool {
+	if !s.AppliesTo(v.Runtime) {
+		return false
+	}
+	if !v.FM {
+		return true
+	}
+	have := map[string]bool{}
+	for _, n := range v.SpecialNames() {
+		have[n] = true
+	}
+	for _, n := range s.Special {
+		if !have[n] {
+			return false
+		}
+	}
+	return true
 }
 
 // KnownBoolOptions: the boolean options of the generator that the fixed variants of the pipeline switch on and
@@ -210,6 +280,77 @@ func BoolOptions() []string {
 	return out
 }
 
+// ValueOptions discovers the options of the generator under test that are flag.Value implementations: the name of
+// every `<flag set>.Var(&target, "<name>", "<usage>")` call in the non-test Go files of cmd/protoc-gen-fastmarshal, in
+// source order. Such an option's Set method runs once per `name=value` token, so it can be given several times: what it
+// stores must not depend on how many values come, in which order, or how often (see RepeatedShapes).
+func ValueOptions() []string {
+	dir := filepath.Join(RepoDir, "cmd", "protoc-gen-fastmarshal")
+	ents, err := os.ReadDir(dir)
+	if err != nil {
+		return nil
+	}
+	var out []string
+	seen := map[string]bool{}
+	fset := token.NewFileSet()
+	for _, e := range ents {
+		if e.IsDir() || !strings.HasSuffix(e.Name(), ".go") || strings.HasSuffix(e.Name(), "_test.go") {
+			continue
+		}
+		f, err := parser.ParseFile(fset, filepath.Join(dir, e.Name()), nil, 0)
+		if err != nil {
+			continue
+		}
+		ast.Inspect(f, func(n ast.Node) bool {
+			ce, ok := n.(*ast.CallExpr)
+			if !ok {
+				return true
+			}
+			sel, ok := ce.Fun.(*ast.SelectorExpr)
+			if !ok || sel.Sel.Name != "Var" || len(ce.Args) != 3 {
+				return true
+			}
+			if lit, ok := ce.Args[1].(*ast.BasicLit); ok && lit.Kind == token.STRING {
+				if name, err := strconv.Unquote(lit.Value); err == nil && !seen[name] {
+					seen[name] = true
+					out = append(out, name)
+				}
+			}
+			return true
+		})
+	}
+	return out
+}
+
+// KnownValueOptions: the value options the pipeline knows meaningful values for — apiversion (one of v1 / v2, chosen
+// by the runtime of the variant, spelled in both cases) and specialname (a set of Go field names: RepeatedShapes).
+var KnownValueOptions = []string{"apiversion", "specialname"}
+
+// NewValueOptions: the discovered value options the pipeline has no values for (reported, see buildCorpus).
+func NewValueOptions() []string {
+	var out []string
+	for _, o := range ValueOptions() {
+		known := false
+		for _, k := range KnownValueOptions {
+			known = known || k == o
+		}
+		if !known {
+			out = append(out, o)
+		}
+	}
+	return out
+}
+
+// HasValueOption: the generator under test registers the value option.
+func HasValueOption(name string) bool {
+	for _, o := range ValueOptions() {
+		if o == name {
+			return true
+		}
+	}
+	return false
+}
+
 // NewBoolOptions: the discovered boolean options the pipeline has no fixed variant for.
 func NewBoolOptions() []string {
 	var out []string
@@ -256,7 +397,12 @@ func (v Variant) FMParam() string {
 		api1, api2 = "apiversion=V1", "apiversion=V2"
 	}
 	if v.Runtime == "gogo" {
-		ps = append(ps, api1, "specialname=Size", gogoWKTfm)
+		ps = append(ps, api1)
+		// a repeatable option: one token per value, in the order of the variant's shape
+		for _, n := range v.SpecialNames() {
+			ps = append(ps, "specialname="+n)
+		}
+		ps = append(ps, gogoWKTfm)
 	} else {
 		ps = append(ps, api2)
 	}
@@ -281,8 +427,16 @@ func (v Variant) FMParam() string {
 
 // Generate runs the runtime's own plug-in and (optionally) the generator under test.
 func Generate(pl *Plugins, s *Schema, v Variant) *Generated {
+	g, _ := GenerateUnlessSame(pl, s, v, nil)
+	return g
+}
+
+// GenerateUnlessSame is Generate for an option variant that has a base variant: the generator under test runs first,
+// and when its output is the base variant's (SameOutput) the runtime's own plug-in is not run at all — the package is
+// not going to be compiled (same = true; g.Files then holds the generator's files only).
+func GenerateUnlessSame(pl *Plugins, s *Schema, v Variant, base *Generated) (g *Generated, same bool) {
 	name := v.Name()
-	g := &Generated{Schema: s, Variant: v, GoImport: "csverifgen/" + s.ID + "/" + name, GoPkgName: name,
+	g = &Generated{Schema: s, Variant: v, GoImport: "csverifgen/" + s.ID + "/" + name, GoPkgName: name,
 		ProtoPkg: "csverif." + s.ID + "." + name, Files: map[string]string{}}
 	fileName := s.ID + "_" + name + ".proto"
 	g.FileProto = s.FileDescriptor(fileName, g.ProtoPkg, g.GoImport+";"+name)
@@ -300,28 +454,32 @@ func Generate(pl *Plugins, s *Schema, v Variant) *Generated {
 	}
 	req := &pluginpb.CodeGeneratorRequest{FileToGenerate: toGen, ProtoFile: append(append([]*descriptorpb.FileDescriptorProto{}, g.Deps...), g.FileProto),
 		CompilerVersion: &pluginpb.Version{Major: proto.Int32(3), Minor: proto.Int32(21), Patch: proto.Int32(0)}}
-	var bin string
-	switch v.Runtime {
-	case "gogo":
-		bin, req.Parameter = pl.Gogo, proto.String("paths=source_relative,"+gogoWKT)
-	case "v1":
-		bin, req.Parameter = pl.GoV1, proto.String("paths=source_relative")
-	default:
-		bin, req.Parameter = pl.GoV2, proto.String("paths=source_relative")
+	runRuntime := func() bool {
+		req.FileToGenerate = toGen
+		var bin string
+		switch v.Runtime {
+		case "gogo":
+			bin, req.Parameter = pl.Gogo, proto.String("paths=source_relative,"+gogoWKT)
+		case "v1":
+			bin, req.Parameter = pl.GoV1, proto.String("paths=source_relative")
+		default:
+			bin, req.Parameter = pl.GoV2, proto.String("paths=source_relative")
+		}
+		resp, err := RunPlugin(bin, req)
+		if err != nil {
+			g.GenError = "runtime plug-in: " + err.Error()
+			return false
+		}
+		if resp.Error != nil {
+			g.GenError = "runtime plug-in: " + resp.GetError()
+			return false
+		}
+		for _, f := range resp.File {
+			g.Files[f.GetName()] = f.GetContent()
+		}
+		return true
 	}
-	resp, err := RunPlugin(bin, req)
-	if err != nil {
-		g.GenError = "runtime plug-in: " + err.Error()
-		return g
-	}
-	if resp.Error != nil {
-		g.GenError = "runtime plug-in: " + resp.GetError()
-		return g
-	}
-	for _, f := range resp.File {
-		g.Files[f.GetName()] = f.GetContent()
-	}
-	if v.FM {
+	runFM := func() {
 		req.FileToGenerate = []string{fileName} // the imported file is somebody else's: not generated
 		if s.Dep != nil && s.GenDep {
 			req.FileToGenerate = toGen // both files in one request, the imported one first
@@ -331,19 +489,33 @@ func Generate(pl *Plugins, s *Schema, v Variant) *Generated {
 		resp, err := RunPlugin(pl.FastMarshal, req)
 		if err != nil {
 			g.GenError = "fastmarshal: " + err.Error()
-			return g
+			return
 		}
 		g.FMResponse = resp
 		if resp.Error != nil {
 			g.GenError = "fastmarshal: " + resp.GetError()
-			return g
+			return
 		}
 		for _, f := range resp.File {
 			g.Files[f.GetName()] = f.GetContent()
 			g.FMFiles = append(g.FMFiles, f.GetName())
 		}
 	}
-	return g
+	if v.FM && base != nil && base.GenError == "" {
+		runFM()
+		if SameOutput(base, g) {
+			return g, true
+		}
+		// (start over in the usual order: the runtime's plug-in first, its error wins)
+		g.GenError, g.FMFiles, g.FMResponse, g.Files = "", nil, nil, map[string]string{}
+	}
+	if !runRuntime() {
+		return g, false
+	}
+	if v.FM {
+		runFM()
+	}
+	return g, false
 }
 
 // SameOutput: the generator under test produced for g exactly what it produced for base — the same files in the same
